@@ -4,6 +4,13 @@ from typing import Set, Optional
 from autofit.database.model import get_class_path
 
 
+def escape(value) -> str:
+    """
+    A string constant written so that it can stand between single quotes in SQL
+    """
+    return str(value).replace("'", "''")
+
+
 class Table:
     def __init__(self, name: str, abbreviation: Optional[str] = None):
         """
@@ -159,7 +166,7 @@ class StringValueCondition(AbstractValueCondition):
         """
         The condition in SQL
         """
-        return f"{string_value_table.abbreviation}.value {self.symbol} '{self.value}'"
+        return f"{string_value_table.abbreviation}.value {self.symbol} '{escape(self.value)}'"
 
 
 class NameCondition(AbstractCondition):
@@ -185,7 +192,7 @@ class NameCondition(AbstractCondition):
         """
         The condition in SQL
         """
-        return f"{object_table.abbreviation}.name = '{self.name}'"
+        return f"{object_table.abbreviation}.name = '{escape(self.name)}'"
 
 
 class TypeCondition(AbstractCondition):
@@ -239,7 +246,7 @@ class EqualityAttributeCondition(AttributeCondition):
     @property
     def value(self):
         if isinstance(self._value, str):
-            return f"'{self._value}'"
+            return f"'{escape(self._value)}'"
         return self._value
 
     def __str__(self):
@@ -250,12 +257,12 @@ class EqualityAttributeCondition(AttributeCondition):
 
 class ContainsAttributeCondition(AttributeCondition):
     def __str__(self):
-        return f"{self.attribute} LIKE '%{self._value}%'"
+        return f"{self.attribute} LIKE '%{escape(self._value)}%'"
 
 
 class InAttributeCondition(AttributeCondition):
     def __str__(self):
-        return f"'{self._value}' LIKE '%' || {self.attribute} || '%'"
+        return f"'{escape(self._value)}' LIKE '%' || {self.attribute} || '%'"
 
 
 class AttributeCondition(AbstractCondition):
